@@ -300,7 +300,7 @@ func c20one(w *W, kind, layout string, G, N, k int, mode string, idx int) {
 					delete(complete, id)
 				}
 			}
-			data = append(append(data, ("\n==== " + prefix + " ====\n")...), d2...)
+			data = append(append(data, ("\n==== "+prefix+" ====\n")...), d2...)
 		}
 		w.Count("multi_target_runs", 1)
 	}
